@@ -21,6 +21,8 @@ type profile struct {
 	colComment, tblComment, idxType, idxPred, idxInclude, idxPrefix, genAddChange, identity, charset bool
 	idxTypes                                                                                    []string
 	scoped                                                                                      bool // postgres with a schema scope "public"
+	variant                                                                                     *myVariant // mysql: server variant of the differ (fakemy.go); "default" = mysql.DefaultDiff
+	tblCS, tblCO                                                                                string     // mysql: charset / collation of the base tables
 }
 
 func sqliteTypeID(k string) string {
@@ -40,6 +42,10 @@ func sqliteTypeID(k string) string {
 	}
 	return k
 }
+
+// quoteDefs are single-quoted SQL string literals with pairwise different values:
+// x, x', 'x, (empty), ', it's, a''b, x" .
+var quoteDefs = []string{"'x'", "'x'''", "'''x'", "''", "''''", "'it''s'", "'a''''b'", "'x\"'"}
 
 func stdDefs(p *profile) func(string) (Def, Def, Def) {
 	return func(k string) (Def, Def, Def) {
@@ -65,11 +71,24 @@ func stdDefs(p *profile) func(string) (Def, Def, Def) {
 }
 
 func newProfile(dialect string) *profile {
+	dialect = strings.TrimSuffix(dialect, "-history")
 	scoped := dialect == "postgres-ns"
 	if scoped {
 		dialect = "postgres"
 	}
 	p := &profile{dialect: dialect, scoped: scoped}
+	if strings.HasPrefix(dialect, "mysql") {
+		vn := strings.TrimPrefix(strings.TrimPrefix(dialect, "mysql"), "-")
+		if vn == "" {
+			vn = "default"
+		}
+		v, ok := myVariants[vn]
+		if !ok {
+			panic("unknown mysql variant " + vn)
+		}
+		p.dialect, dialect = "mysql", "mysql"
+		p.variant, p.tblCS, p.tblCO = v, v.tblCS, v.tblCO
+	}
 	switch dialect {
 	case "sqlite":
 		p.tInt, p.tBig, p.tStr, p.tStr2, p.tText = "integer", "bigint", "varchar(255)", "varchar(10)", "text"
@@ -127,7 +146,7 @@ func bases(p *profile) []Schema {
 	}
 	var cs, co *string
 	if p.charset {
-		cs, co = sp("utf8mb4"), sp("utf8mb4_0900_ai_ci")
+		cs, co = sp(p.tblCS), sp(p.tblCO)
 	}
 	latin := func(c *Col) {
 		if p.charset {
@@ -213,7 +232,18 @@ func bases(p *profile) []Schema {
 		d, _, _ := p.defs(k)
 		b2d.Cols = append(b2d.Cols, Col{Name: fmt.Sprintf("d%02d", i), Type: k, Null: i%2 == 1, Def: &d})
 	}
-	b2 := Schema{Name: "main", Tables: []Table{b2t, b2d}}
+	b2tabs := []Table{b2t, b2d}
+	if p.dialect != "postgres" {
+		// string defaults whose value begins/ends with the quote character or is made of quotes only
+		// (sqlx.Unquote strips exactly one quote pair and collapses doubled quotes)
+		b2q := Table{Name: "quote_defaults", Charset: cs, Collation: co, Engine: eng}
+		for i, v := range quoteDefs {
+			d := Def{V: v}
+			b2q.Cols = append(b2q.Cols, Col{Name: fmt.Sprintf("q%02d", i), Type: p.tText, Null: true, Def: &d})
+		}
+		b2tabs = append(b2tabs, b2q)
+	}
+	b2 := Schema{Name: "main", Tables: b2tabs}
 
 	// B3 composite keys, expression and partial indexes
 	b3 := Schema{Name: "shop", Tables: []Table{
@@ -310,5 +340,29 @@ func bases(p *profile) []Schema {
 	if p.dialect == "sqlite" {
 		b7.Tables[1].WithoutRowID = true
 	}
-	return []Schema{b1, b2, b3, b4, b5, b6, b7}
+	all := []Schema{b1, b2, b3, b4, b5, b6, b7}
+	if p.dialect == "mysql" {
+		// B8 string columns in every charset / collation state: inheriting the table's, with a
+		// charset whose collation is the default one (8.0 / 5.7 and MariaDB flavour) or not
+		col := func(n, cs, co string) Col {
+			c := Col{Name: n, Type: p.tStr2, Null: true}
+			if cs != "" {
+				c.Charset, c.Collation = sp(cs), sp(co)
+			}
+			return c
+		}
+		all = append(all, Schema{Name: "main", Tables: []Table{{Name: "cs", Charset: cs, Collation: co, Engine: eng,
+			Cols: []Col{{Name: "id", Type: p.tInt}, col("inherit", "", ""), col("l1", "latin1", "latin1_swedish_ci"), col("l1b", "latin1", "latin1_bin"),
+				col("u8g", "utf8mb4", "utf8mb4_general_ci"), col("u8n", "utf8mb4", "utf8mb4_0900_ai_ci"), col("u8b", "utf8mb4", "utf8mb4_bin"),
+				col("asc", "ascii", "ascii_general_ci"), col("ascb", "ascii", "ascii_bin")},
+			PK: pk(pkName("cs"), "id")}}})
+		if !p.variant.check {
+			for si := range all {
+				for ti := range all[si].Tables {
+					all[si].Tables[ti].Checks = nil
+				}
+			}
+		}
+	}
+	return all
 }
